@@ -17,6 +17,8 @@ Model of the PT-utilization path (C11), at the level of *parsed* compiler-log ro
 * `pipeline/stats.py::calculate_stats` — the rule that drops a start counter whose value is within 1e-9
   of 0 (only when the stats stage is registered; `cleanup_copy_of_device_ts` strips the scratch `dur`
   otherwise);
+* `MultiRCUUtilizationContext.extract_kernel_from_event_name` (`[N]` in the name + `args.fn_idx` present
+  → first `[N]` replaced by `str(fn_idx)`; the suffix rule);
 * `FLEX` dialect `acc_kernel = is.name;Cmpt Exec$`, `acc_event_cat = has.args.TS1` (kernel slices).
 
 With a single table the fingerprint match always selects that table (`update_fprint_matches` takes the
@@ -77,6 +79,17 @@ def catOfKernel (m : List (String × String)) (k : String) : String := (lookup m
 
 /-! ### one kernel slice -/
 
+/-- `args.fn_idx` as found in the event: an integer or a string (`str()` of it is substituted) -/
+inductive FnIdx where
+  | int (i : Int)
+  | str (s : String)
+  deriving DecidableEq, Repr
+
+/-- Python `str(fn_idx)` -/
+def FnIdx.render : FnIdx → String
+  | .int i => toString i
+  | .str s => s
+
 structure UEv where
   name : String
   pid : Int
@@ -84,11 +97,31 @@ structure UEv where
   dur : Rat
   /-- the slice carries `args.TS1` (`acc_event_cat`) -/
   hasTS : Bool
+  /-- `args.fn_idx` when the key is present (whatever its value, 0 included) -/
+  fn : Option FnIdx := none
 
 def endsWithChars (suf s : List Char) : Bool := suf.reverse.isPrefixOf s.reverse
 
 /-- `is_acc_event and is_acc_kernel` in the FLEX dialect -/
 def isKernel (e : UEv) : Bool := e.hasTS && endsWithChars "Cmpt Exec".toList e.name.toList
+
+/-- `re.sub(pat, rep, ·, count=1)` for a literal pattern: the leftmost occurrence is replaced -/
+def replaceFirst (pat rep : List Char) : List Char → List Char
+  | [] => []
+  | c :: cs =>
+    if pat.isPrefixOf (c :: cs) then rep ++ (c :: cs).drop pat.length else c :: replaceFirst pat rep cs
+
+/-- `MultiRCUUtilizationContext.extract_kernel_from_event_name` on the characters of the name: when
+`args.fn_idx` is present the first `[N]` is replaced by `str(fn_idx)` (a name without `[N]` is left alone),
+then ` Cmpt Exec` is appended unless the name already ends with `Cmpt Exec` -/
+def tableChars (name : List Char) (fn : Option FnIdx) : List Char :=
+  let r := match fn with
+    | some f => replaceFirst "[N]".toList f.render.toList name
+    | none => name
+  if endsWithChars "Cmpt Exec".toList r then r else r ++ " Cmpt Exec".toList
+
+/-- the name under which the slice is looked up in the cycle table and the category map -/
+def tableName (e : UEv) : String := String.ofList (tableChars e.name.toList e.fn)
 
 def absR (x : Rat) : Rat := if x < 0 then -x else x
 
@@ -167,9 +200,9 @@ structure Env where
 
 def mkEnv (cfg : Cfg) (rows : List LogRow) : Env := ⟨cfg, buildTable rows, buildCatMap rows⟩
 
-def idealOf (env : Env) (e : UEv) : Rat := idealDur env.cfg.core (getCycles env.table e.name)
+def idealOf (env : Env) (e : UEv) : Rat := idealDur env.cfg.core (getCycles env.table (tableName e))
 def utilOf (env : Env) (e : UEv) : Rat := utilization (idealOf env e) e.dur
-def catOf (env : Env) (e : UEv) : String := catOfKernel env.catmap e.name
+def catOf (env : Env) (e : UEv) : String := catOfKernel env.catmap (tableName e)
 def accOf (env : Env) (e : UEv) : Acc := ⟨e.dur, idealOf env e, 1⟩
 
 def annotate (env : Env) (e : UEv) : Ann :=
